@@ -399,6 +399,12 @@ class Model:
                 if exc is None:
                     bad("invalid-accepted", f"invalid value {describe(val)} was accepted without error; "
                         f"container now {describe(c._array)}")
+        elif name == "detset" and val is None:
+            # `detector.<bucket> = <empty container>`: either refused (content untouched, checked above) or the bucket
+            # becomes empty; silently keeping the previous content would be stale data under the new assignment
+            if exc is None and after is not None:
+                bad("stale-after-empty-assignment", f"assigning an empty container was accepted but the bucket still "
+                    f"holds {describe(c._array)}")
         elif name == "iadd":
             if exc is None and inv is None:
                 exp = _ref_iadd(ref_before, val)
